@@ -366,6 +366,21 @@ def w_rules(ctx):
         c03.r9_gone_caller_is_not_a_connection_error(ctx)
         # ... and a stub's request is on record before it is written (the answer may be read before the write returns)
         c03.r3_insert_before_send(ctx)
+        # W11: the value / error object the server method returned is what is put on the wire: MethodResponse::response
+        # serialises the payload it was given (its `inner`, untouched), and a method's answer goes out with HTTP 200 whatever
+        # error code it carries (the HTTP client turns any other status into a transport error without reading the body)
+        mr = F.one(r"^jsonrpsee_core::server::method_response::MethodResponse::response$")
+        R.fn(mr)
+        trp = ctx.tracer(follow_callers=False, follow_fields=False, inline_calls=False)
+        news = mr.calls_to(r"Response::<.*>::new$")
+        firsts = [c for c in news if not any(mr.dominates(o.bb, c.bb) and o.bb != c.bb for o in news)]
+        for c in firsts:
+            lv = trp.origins(mr, c.args[0])
+            ok = bool(lv) and all(l.kind == "field" and l.detail["fields"][-1][1] == "inner" and l.detail.get("idx") == 2 for l in lv)
+            R.check(ok, "C17.W11", "response:serialises-the-given-payload", "MethodResponse::response serialises the payload it was given", "MethodResponse::response serialises %s instead of the payload it was handed: what the client receives is not exactly the value / error object the server method returned (e.g. the `data` of an error is stripped)" % [flow.leaf_str(l)[:70] for l in lv], where(c))
+        R.floor("C17.W11", len(firsts), 1, "primary serialisation site of MethodResponse::response")
+        from .common import http_status_table
+        http_status_table(ctx, "C17.W11", ("from_method_response",))
         return w6_runtime_key_encoding(ctx)
     tr = ctx.tracer(follow_callers=False, follow_fields=False)
     traits = collect(F, tr)
